@@ -41,6 +41,19 @@ class EventBase(ObjectWithFields):
         'version': 0,
     }
 
+    # the range of values that each integer option accepts
+    MINIMUM_VALUES = {
+        'count': 0,
+        'duration': 0,
+        'interval': 1,
+        'start': 0,
+        'timescale': 1,
+        'version': 0,
+    }
+    MAXIMUM_VALUES = {
+        'version': 1,
+    }
+
     @abstractmethod
     def create_manifest_context(self, context: dict) -> dict:
         ...
@@ -50,11 +63,17 @@ class EventBase(ObjectWithFields):
         ...
 
     @staticmethod
-    def int_or_default_from_string(default: int) -> Callable[[str], int]:
+    def int_or_default_from_string(default: int,
+                                   minimum: int | None = None,
+                                   maximum: int | None = None) -> Callable[[str], int]:
         def int_or_default(value: str):
             value = DashOption.int_or_none_from_string(value)
             if value is None:
                 return default
+            if minimum is not None and value < minimum:
+                raise ValueError(f'{value} is less than the minimum of {minimum}')
+            if maximum is not None and value > maximum:
+                raise ValueError(f'{value} is greater than the maximum of {maximum}')
             return value
         return int_or_default
 
@@ -80,7 +99,8 @@ class EventBase(ObjectWithFields):
                 input_type = 'checkbox'
                 cgi_choices = (str(dflt), str(not dflt))
             elif isinstance(dflt, int):
-                from_string = cls.int_or_default_from_string(dflt)
+                from_string = cls.int_or_default_from_string(
+                    dflt, cls.MINIMUM_VALUES.get(key), cls.MAXIMUM_VALUES.get(key))
                 input_type = 'number'
                 cgi_type = '<int>'
                 cgi_choices = tuple([str(dflt)])
